@@ -57,7 +57,7 @@ NONVACUITY = ["master_location_instances", "interior_instances", "two_axis_cases
 
 TOL = F(1, 10 ** 6)
 TIE = F(1, 10 ** 7)
-MAX_VIOL = 8
+MAX_VIOL = 3
 
 INFO_NUMBER = ["unitsPerEm", "ascender", "descender", "xHeight", "capHeight",
                "postscriptUnderlinePosition", "postscriptUnderlineThickness"]
@@ -670,7 +670,9 @@ class Judge:
         self.counters[k] = self.counters.get(k, 0) + n
 
     def viol(self, mech, **detail):
-        if len(self.violations) < MAX_VIOL:
+        # at most MAX_VIOL witnesses per mechanism and case (a flood of one mechanism must not
+        # hide another one, e.g. 'sources_mutated' behind per-instance mismatches)
+        if sum(1 for v in self.violations if v["mech"] == mech) < MAX_VIOL:
             self.violations.append({"mech": mech, "detail": detail})
 
     # ---- one glyph
